@@ -277,6 +277,35 @@ func VH_C15_rule_large() {
 	c15checkRules(QoSRules{r}, enc)
 }
 
+// long packet filter lists: the serialised filter list of ONE rule runs past 256 octets (and, in the last shape, to its
+// maximum of 15 filters x 254 octets), so every internal buffer used while building it has to grow at least once:
+// 15 filters of 18 octets; a 234-octet filter followed by a short one (the second straddles octet 256); 15 full filters
+func VH_C15_rule_long_filters() {
+	op := []QoSRuleOperationCode{OperationCodeCreateNewQoSRule, OperationCodeModifyExistingQoSRuleAndAddPacketFilters, OperationCodeModifyExistingQoSRuleAndReplaceAllPacketFilters}[vrt.Choose("op", 0, 2)]
+	rep := func(n int) []int {
+		ks := make([]int, n)
+		for i := range ks {
+			ks[i] = 1 + i%2 // IPv4 remote / local address: 9 octets each
+		}
+		return ks
+	}
+	var kinds [][]int
+	switch vrt.Choose("shape", 0, 2) {
+	case 0:
+		for i := 0; i < 15; i++ {
+			kinds = append(kinds, rep(2))
+		}
+	case 1:
+		kinds = [][]int{rep(26), rep(3)}
+	default:
+		for i := 0; i < 15; i++ {
+			kinds = append(kinds, rep(28))
+		}
+	}
+	r, enc := c15rule("r0", op, kinds)
+	c15checkRules(QoSRules{r}, enc)
+}
+
 // ---- flow descriptions ----
 
 func c15param(nm string, kind int) (QoSFlowParameter, []byte) {
